@@ -129,7 +129,7 @@ Section RunId.
     | IBase (OHash i) => (w, [if hashable (fst (geti w i)) then 0 else 1])
     | IBase OSnapAll => (w, pids w)
     | IBase (OToJson _) | IBase (OFromJson _) | IBase (OJsonRT _) | IBase (OEq _ _ _)
-    | IBase (OFillNp _ _) | IBase (OSnapP _) | IBase (OView _ _ _ _) => (w, [9])
+    | IBase (OFillNp _ _) | IBase (OSnapP _) | IBase (OView _ _ _ _) | IBase (ODf _ _) => (w, [9])
     end.
 
   Fixpoint runi_from (w : world) (ops : list iop) : list (list Z) :=
